@@ -57,6 +57,16 @@ theorem C19_rejects (dec : JVal → Option α) (kvs : List (String × JVal)) (nc
   · exact h hl
   · exact h hz
 
+/-- the converse direction: **every well-formed document is accepted**, whatever the order of its three entries — the dimensions
+    as number literals below 2^64 satisfying the zero rule, a `data` array whose elements decode, product = number of elements -/
+theorem C19_accepts (dec : JVal → Option α) (kvs : List (String × JVal)) (nc nr : Nat) (v : JVal) (data : List α)
+    (hk : kvs.Perm [("num_cols", JVal.num nc), ("num_rows", JVal.num nr), ("data", v)])
+    (hd : decVec dec v = some data) (hlen : nc * nr = data.length) (hw : nc * nr < WORD) (hz : nc = 0 ↔ nr = 0) :
+    deserialize dec (.obj kvs) = .ok ⟨data, nr, nc⟩ := by
+  obtain ⟨hc, hr⟩ := dims_lt_word hz hw
+  rw [deserialize_of_visit dec kvs nc nr data (visitLoop_of_perm dec kvs nc nr v data hk hd hc hr),
+    if_pos ⟨hw, hlen, hz⟩]
+
 /-- the element codec used by the non-vacuity examples: natural-number literals -/
 private def decNat : JVal → Option Nat
   | .num n => some n
